@@ -238,7 +238,7 @@ def thaw (items : List (Sym × Cell)) : List (Sym × Cell) :=
   items.map (fun kc => (kc.1, ⟨kc.2.unit, kc.2.exp, false⟩))
 
 /-- derived branch of `Quantity(odict, None, caption)`; a plain `dict` falls through to the simple
-branch and raises `TypeError`; categories are looked up, units are NOT checked; the mapping is
+branch and raises `TypeError`; categories are looked up (the units were checked by `ObtainQuantity`); the mapping is
 copied into fresh list cells (`thaw`) -/
 def newDerived (db : Db) (s : State) (items : List (Sym × Cell)) (od : Bool) (cap : Option Sym) :
     State × Except ErrKind Nat :=
@@ -358,6 +358,19 @@ def obtainKey (db : Db) (s : State) (u : Option Sym) (c : CatArg) (cap : Option 
       | none => (s, .error .assertion)
       | some unit => obtainDefaultCat db s unit cap key
 
+/-- the validation loop of `_CreateDerived`, also run by `ObtainQuantity` on a miss of a composing key:
+`CheckQuantityTypeUnit(GetCategoryQuantityType(category), unit)` for every entry (legacy spellings are not
+fixed here) -/
+def validateItems (db : Db) : List (Sym × Cell) → Except ErrKind Unit
+  | [] => .ok ()
+  | (cat, cell) :: rest =>
+    match db.catByName cat with
+    | none => .error .units
+    | some ci =>
+      match db.checkQuantityTypeUnit ci.qtype cell.unit with
+      | .error e => .error e
+      | .ok _ => validateItems db rest
+
 /-- the `isinstance(unit, dict)` block -/
 def obtainDict (db : Db) (s : State) (items : List (Sym × Cell)) (od : Bool) (c : CatArg)
     (cap : Option Sym) : State × Except ErrKind Nat :=
@@ -368,7 +381,10 @@ def obtainDict (db : Db) (s : State) (items : List (Sym × Cell)) (od : Bool) (c
     | none =>
       match lookupKey s.cache (compKey items cap) with
       | some i => (s, .ok i)
-      | none => cacheNew (newDerived db s items od cap) (compKey items cap)
+      | none =>
+        match validateItems db items with                -- only a miss pays for the check
+        | .error e => (s, .error e)
+        | .ok _ => cacheNew (newDerived db s items od cap) (compKey items cap)
   | _ => (s, .error .assertion)                          -- assert category is None
 
 /-- `ObtainQuantity(unit, category, unknown_unit_caption)` -/
@@ -389,17 +405,6 @@ def createEmpty (db : Db) (s : State) : State × Except ErrKind Nat :=
     match obtain db s (.dict [] true) .none none with
     | (s1, .ok i) => ({ s1 with empty := some i }, .ok i)
     | (s1, .error e) => (s1, .error e)
-
-/-- the validation loop of `_CreateDerived` -/
-def validateItems (db : Db) : List (Sym × Cell) → Except ErrKind Unit
-  | [] => .ok ()
-  | (cat, cell) :: rest =>
-    match db.catByName cat with
-    | none => .error .units
-    | some ci =>
-      match db.checkQuantityTypeUnit ci.qtype cell.unit with
-      | .error e => .error e
-      | .ok _ => validateItems db rest
 
 /-- `Quantity.CreateDerived(map, caption)` (always validating) -/
 def createDerived (db : Db) (s : State) (items : List (Sym × Cell)) (cap : Option Sym) :
